@@ -77,7 +77,9 @@ def run(ctx):
         es = [e for e in I.events if e.kind == 'store' and e.data.get('target') == 'attr' and e.data.get('name') == name
               and e.data['base'].key == sym('self').key]
         return es[0].data['value'] if es else None
-    ts_v, t0_v, v_v = first_store('ts'), first_store('t_start'), first_store('v')
+    # (values at exit: with no sources the request consists of the time step alone, and a conditional re-use of the old
+    #  buffer shows up as a conditional value)
+    ts_v, t0_v, v_v = selfattr(r, 'ts'), selfattr(r, 't_start'), selfattr(r, 'v')
     ctx.formula('FORMULA', 'sample k of a request is at t_start + k*dt', ut, ts_v if ts_v is not None else T.NONE,
                 ctx.spec(ut, 'SEQ(self.t_start, self.dt, num_samples)', I=J), node=ut.node, construct='self.ts')
     ctx.formula('FORMULA', 'the clock advances by num_samples*dt', ut, t0_v if t0_v is not None else T.NONE,
